@@ -224,6 +224,13 @@ where
 static CLEARED_TIMER_IDS: LazyLock<Mutex<HashSet<TimerId>>> =
     LazyLock::new(|| Mutex::new(HashSet::new()));
 
+/// Number of timer ids currently held in the process-wide cleared-timer set
+/// (read-only gauge, verification builds only).
+#[cfg(crux_verif)]
+pub fn verif_cleared_len() -> usize {
+    CLEARED_TIMER_IDS.lock().unwrap().len()
+}
+
 #[cfg(test)]
 mod test {
     use super::*;
